@@ -283,6 +283,23 @@ theorem beginBlock_grants (steps : List String) (s s' : State) (h : beginBlock s
   · simp only [bind_eq_ok, pure_eq_ok] at hb; obtain ⟨_, _, rfl⟩ := hb; exact ⟨rfl, rfl⟩
   · cases hb
 
+theorem govExecAll_fine (wall : Nat) (s : State) (msgs : List Msg) (hg : GrantsOK s) :
+    FinePath s (govExecAll wall s msgs).1 ∧ GrantsOK (govExecAll wall s msgs).1 := by
+  unfold govExecAll
+  split
+  · rename_i hall
+    have hsig : ∀ m ∈ msgs, m.SignedOK := by
+      intro m hm
+      have := List.all_eq_true.mp hall m hm
+      exact ⟨Mgov, by simpa using this, Or.inr rfl⟩
+    split
+    · rename_i s' rs h
+      exact runMsgs_signed wall FinePath .refl (fun _ _ _ => FinePath.trans)
+        (fun a m b r hl hga hsa hx => ⟨.single (.leaf wall m r hl hga hsa hx), leaf_grantsOK wall a b m r hl hga hsa hx⟩)
+        msgs s s' rs hg hsig h
+    · exact ⟨.refl _, hg⟩
+  · exact ⟨.refl _, hg⟩
+
 /-- every coarse step of the application is a path of elementary steps (and keeps `GrantsOK`) -/
 theorem chainStep_fine (s s' : State) (h : ChainStep s s') (hg : GrantsOK s) : FinePath s s' ∧ GrantsOK s' := by
   cases h with
@@ -292,6 +309,7 @@ theorem chainStep_fine (s s' : State) (h : ChainStep s s') (hg : GrantsOK s) : F
   | deliver wall tx hs => subst hs; exact deliverTx_fine wall s tx hg
   | check tx hs => subst hs; exact checkTx_fine s tx hg
   | gov wall m hs => subst hs; exact govExec_fine wall s m hg
+  | govAll wall msgs hs => subst hs; exact govExecAll_fine wall s msgs hg
 
 /-- states reached from the genesis state through elementary steps whose source states all
 satisfy the history assumption `Q` -/
